@@ -31,8 +31,22 @@ def load_catalogue():
     return cat
 
 
+def apply_patch(tmp, m):
+    """Apply the src/ part of a unified diff kept under /verif (a seeded change) to the scratch copy."""
+    with open(os.path.join(VERIF, m["patch"])) as f:
+        text = f.read()
+    chunks = re.split(r"(?m)^(?=diff --git )", text)
+    keep = [c for c in chunks if re.match(r"diff --git a/src/[^ ]+ b/src/", c) and "base64u.c" not in c.split("\n", 1)[0]]
+    if not keep:
+        return "patch touches nothing under src/"
+    r = subprocess.run(["patch", "-p1", "-s", "-f", "-d", tmp], input="".join(keep), capture_output=True, text=True)
+    if r.returncode != 0:
+        return "patch does not apply: %s" % (r.stdout + r.stderr).strip()[:200]
+    return None
+
+
 def apply_edits(srcdir, m):
-    for ed in m["edits"]:
+    for ed in m.get("edits", ()):
         p = os.path.join(srcdir, ed["file"])
         with open(p) as f:
             s = f.read()
@@ -55,17 +69,24 @@ def run_one(m):
             p = os.path.join(REPO, "src", name)
             if os.path.isfile(p) and not name.endswith(".o") and name not in ("base64u.c",):
                 shutil.copy2(p, os.path.join(src, name))
-        err = apply_edits(src, m)
+        err = apply_patch(tmp, m) if m.get("patch") else apply_edits(src, m)
         if err:
             return m, "STALE", err, ""
         env = dict(os.environ, IODINE_REPO=tmp, IODINE_VERIF_OUT=os.path.join(tmp, "out"))
         r = subprocess.run([os.path.join(VERIF, "check"), m["prop"], "quick"], env=env,
                            capture_output=True, text=True, cwd=VERIF)
         out = r.stdout + r.stderr
-        if m["kind"] == "N":
+        if m["kind"] in ("N", "M"):
+            # N: behaviour-preserving, must be silent.  M: a documented miss (breaks a clause the check does not decide):
+            # silent today; if that ever changes the catalogue has to be updated
             if r.returncode == 0:
                 return m, "OK", "silent", out
-            return m, "FAIL", "neutral variant raised exit %d" % r.returncode, out
+            return m, "FAIL", "%s variant raised exit %d" % ("neutral" if m["kind"] == "N" else "documented-miss", r.returncode), out
+        if m["kind"] == "X":
+            # the check cannot judge this shape of the code: analysis-broken, never a violation, never a pass
+            if r.returncode == 2:
+                return m, "OK", "cannot judge (exit 2)", out
+            return m, "FAIL", "expected exit 2 (cannot judge), got %d" % r.returncode, out
         if r.returncode != 1:
             return m, "FAIL", "breaking variant not reported (exit %d)" % r.returncode, out
         hits = re.findall(r"^  rule (\S+) \(.*?\) at \S+ in ([\w.]+): ", out, re.M)
